@@ -30,6 +30,14 @@ def gen_script(rng, chk):
             u = rng.choice([None, None, None, eps, float(np.nextafter(eps, 2)), float(np.nextafter(eps, -1)) if eps > 0 else 0.0, 0.0])
             ops.append(["P", u, rng.randrange(n) if rng.random() < 0.5 else None])
         if k in ("R", "PLR"):
+            if rng.random() < 0.25:
+                # reference bests at which the relative improvement is not defined: a perfect fit (0.0), a diverged run (+-inf);
+                # not decreased (equal or worse) must still be "reward zero, reference unchanged"
+                cur = rng.choice([0.0, 0.0, float("inf"), -float("inf"), -0.0])
+                new = rng.choice([cur, cur, 1.0, float("inf"), 0.0] if cur != -float("inf") else [cur, 0.0, -1.0])
+                ops.append(["R", cur, new])
+                chk.count("reward:degenerate_reference")
+                continue
             new = rng.choice([ref, ref * rng.random(), ref * (1 + rng.random()), ref / 2, float(np.nextafter(ref, 0)), 0.0])
             ops.append(["R", ref, new]); ref = min(ref, new) if new > 0 else ref
         if k in ("L", "PLR"):
@@ -70,9 +78,12 @@ def run_real(n, alpha, eps, q0, seed, ops):
             trace.append(("L", op[1], op[2], qb, cb, list(ag.Q), list(ag.actions_count)))
         else:
             env._curr_best_loss = op[1]
-            r = env.get_reward(None, op[2])
+            try:
+                r = env.get_reward(None, op[2])
+            except ArithmeticError as e:      # e.g. ZeroDivisionError with Python floats
+                r = type(e).__name__
             lean_ops.append(f"R {f2h(op[1])} {f2h(op[2])}")
-            outs.append(f"{f2h(r)} {f2h(env._curr_best_loss)}")
+            outs.append(f"{f2h(r) if not isinstance(r, str) else r} {f2h(env._curr_best_loss)}")
             trace.append(("R", op[1], op[2], r, env._curr_best_loss))
     return lean_ops, outs, trace, ag
 
@@ -85,7 +96,9 @@ def oracle(n, alpha, eps, trace) -> list[str]:
         if t[0] == "R":
             _, cur, new, r, ref = t
             if new < cur:
-                if cur != 0 and not close(r, (Fraction(cur) - Fraction(new)) / Fraction(cur)):
+                if cur == 0 or abs(cur) == float("inf") or abs(new) == float("inf"):
+                    continue      # improvement over a reference at which the relative improvement is undefined: outside the rule's domain
+                if isinstance(r, str) or not close(r, (Fraction(cur) - Fraction(new)) / Fraction(cur)):
                     errs.append(f"reward for {cur!r}->{new!r} is {r!r}, not (prev-new)/prev")
                 if ref != new:
                     errs.append(f"reference best not moved on improvement: {ref!r}")
